@@ -166,11 +166,12 @@ PROPS["C10"] = dict(
     rule="triples (A, B, A||B), A ending with the EOL, records of different field counts, empty records, failing "
          "records, on the general path (-g/-p/-r/-m, multi-byte delimiters), the fast lane, -c, --json, -e and -M; "
          "non-trivial = the concatenated run delivers output",
-    theorems=["C10_general_path", "C10_fast_path", "C10_failure_is_preserved", "C10_failure_is_preserved_fast"],
+    theorems=["C10_general_path", "C10_fast_path", "C10_failure_is_preserved", "C10_failure_is_preserved_fast",
+              "C10_fixed_memory_is_per_record", "C10_fixed_memory", "C10_fixed_memory_any_chunking",
+              "C10_failure_is_preserved_fixed_memory"],
     assumptions=["the model cuts each record with a function of that record alone (scratch buffers are not "
                  "modelled); that the code's reused buffers do not leak between records is what the "
-                 "correspondence check and the triple oracle test", "-M: covered by the correspondence and the oracle; "
-                 "its compositional theorem is part of C04's development"],
+                 "correspondence check and the triple oracle test"],
 )
 
 PROPS["C13"] = dict(
